@@ -321,8 +321,8 @@ func (n *node[T]) checkAmbiguous(pattern string, hasNonString bool) (*node[T], b
 		}
 		s0 := segs[0]
 
-		if seg.IsAmbiguous(s0) {
-			node, hasNonString, err := c.checkAmbiguous(pattern[s0.AmbiguousLen():], true)
+		if l, ok := seg.AmbiguousPrefix(s0); ok { // c 可能是被拆分之后的节点，只需比较至 c 的结尾。
+			node, hasNonString, err := c.checkAmbiguous(pattern[l:], true)
 			if err != nil {
 				return nil, false, err
 			}
